@@ -413,11 +413,33 @@ def constrain_sizes(root, rng, p=0.3):
             fq["size"] = q["size"]
 
 
-def gen_hierarchy(rng, p_constrain=0.3, **kw):
+def use_port_placeholders(root, rng, p=0.12):
+    """A leaf whose input port declares no size may still speak of that size, as #port: an output as wide as the input
+    (`#in_0`), the sum of two inputs (`#in_0 + #in_1`), one more (`#in_0 + 1`), a cost proportional to it."""
+    for nd, path in list(_nodes(root)):
+        if not path or nd["children"] or rng.random() >= p:
+            continue
+        unsized = [q for q in nd["ports"] if q["direction"] == "input" and q["size"] is None]
+        outs = [q for q in nd["ports"] if q["direction"] == "output"]
+        if not unsized:
+            continue
+        a = E.sym("#" + rng.choice(unsized)["name"])
+        b = E.sym("#" + rng.choice(unsized)["name"])
+        if outs:
+            rng.choice(outs)["size"] = rng.choice([a, a, E.op("add", a, b), E.op("add", a, E.num(1))])
+        if rng.random() < 0.5 and nd["resources"]:
+            x = rng.choice(nd["resources"])
+            if x["type"] in ("additive", "other"):
+                x["value"] = E.op("add", x["value"], E.op("mul", E.num(2), b))
+
+
+def gen_hierarchy(rng, p_constrain=0.3, p_placeholder=0.12, **kw):
     g = Gen(rng, **kw)
     root, _ = g.build("root", g.max_depth, rng.randint(0, 2), is_root=True)
     if p_constrain:
         constrain_sizes(root, rng, p_constrain)
+    if p_placeholder:
+        use_port_placeholders(root, rng, p_placeholder)
     return root
 
 
